@@ -466,6 +466,20 @@ def run_shard(spec):
                     if w[0] in "({" and ("(" in w[1:] or "{" in w[1:]):
                         _run_string(res, "$" + w)
             res.exhaustive_parts.append("'$' + every string of length <= 7 over '(){}aB' that opens a bracket and holds another opening bracket")
+            # line ends, blanks and tabs are "other text" like any: every string of up to 6
+            # characters over { $ { } a LF blank } that holds a '$' and a LF or blank, and the
+            # same with CR / TAB / U+2028 in the place of LF
+            n_ws = 0
+            for L in range(2, 7):
+                for t in itertools.product("${}a\n ", repeat=L):
+                    w = "".join(t)
+                    if "$" in w and ("\n" in w or " " in w):
+                        _run_string(res, w)
+                        n_ws += 1
+                        if L <= 5 and "\n" in w:
+                            for other in "\r\t\u2028":
+                                _run_string(res, w.replace("\n", other))
+            res.exhaustive_parts.append("every string of <= 6 characters over '${}a', line feed and blank with a '$' and a line feed or blank (%d), line feed also replaced by CR / TAB / U+2028" % n_ws)
             # size classes: the same short strings far inside a long one (>= 128, >= 4096 characters)
             for L in range(1, 5):
                 for t in itertools.product(ALPHABET, repeat=L):
